@@ -90,10 +90,23 @@ func (a *monAPI) ConnectTo(ctx context.Context, p peer.ID) error {
 	call.end, call.failed = a.now(), fail
 	a.mu.Unlock()
 	if fail {
-		return errors.New("connect failed")
+		return failureErr("connect failed", i)
 	}
 	return nil
 }
+// failureErr is what a failed reconnect / restart looks like to the monitor: a plain error, or - as the
+// network layer reports an unreachable peer - one that wraps the deadline of ITS OWN per-attempt timeout
+// (or a cancellation inside it). Neither says anything about the monitor's own context.
+func failureErr(what string, i int) error {
+	switch i % 3 {
+	case 1:
+		return fmt.Errorf("%s: open stream: %w", what, context.DeadlineExceeded)
+	case 2:
+		return fmt.Errorf("%s: dial: %w", what, context.Canceled)
+	}
+	return errors.New(what)
+}
+
 func (a *monAPI) RestartDataTransferChannel(ctx context.Context, chid datatransfer.ChannelID) error {
 	a.mu.Lock()
 	i := a.nrst[chid]
@@ -114,7 +127,7 @@ func (a *monAPI) RestartDataTransferChannel(ctx context.Context, chid datatransf
 	call.end, call.failed = a.now(), fail
 	a.mu.Unlock()
 	if fail {
-		return errors.New("restart failed")
+		return failureErr("restart failed", i)
 	}
 	return nil
 }
@@ -615,7 +628,7 @@ func TestC14Mgr(t *testing.T) {
 			k := connects
 			fmu.Unlock()
 			if (fault == 1 || (fault == 3 && k%2 == 1)) && failing() {
-				return errors.New("no route to peer")
+				return failureErr("no route to peer", k)
 			}
 			return nil
 		})
@@ -625,7 +638,7 @@ func TestC14Mgr(t *testing.T) {
 				restartSends++
 				fmu.Unlock()
 				if (fault == 2 || fault == 3) && failing() {
-					return errors.New("stream reset")
+					return failureErr("stream reset", restartSends)
 				}
 			}
 			return nil
@@ -636,7 +649,7 @@ func TestC14Mgr(t *testing.T) {
 				reopens++
 				fmu.Unlock()
 				if (fault == 2 || fault == 3) && failing() {
-					return errors.New("graphsync request could not be opened")
+					return failureErr("graphsync request could not be opened", reopens)
 				}
 			}
 			return nil
